@@ -180,6 +180,8 @@ func runC04(c *Ctx) {
 	c.Extra["removal_call_graph"] = len(fns)
 
 	c.c04LinkTestOnCleanPath(fns)
+	c.rule("N14", absentOnlyWhenAbsentText, 3)
+	c.c04AbsentOnlyWhenAbsent("N14", nil)
 	for _, f := range fns {
 		c.errOverwrittenRule("N8", f)
 	}
@@ -408,43 +410,7 @@ func runC04(c *Ctx) {
 				if !holdsPrimitive {
 					continue
 				}
-				var probeErr ssa.Value
-				classified, reported := false, false
-				for _, rb := range region {
-					for _, i2 := range rb.Instrs {
-						c2, ok := i2.(*ssa.Call)
-						if !ok {
-							continue
-						}
-						if n2, a2, ok := fsMethodCall(c2); ok && (n2 == "Lstat" || n2 == "Stat") && len(a2) > 0 && samePath(a2[0], args[0]) {
-							if es := errResultsOf(c2); len(es) > 0 {
-								probeErr = es[0]
-							}
-						}
-					}
-				}
-				if probeErr != nil {
-					for _, rb := range region {
-						for _, i2 := range rb.Instrs {
-							switch x := i2.(type) {
-							case *ssa.Call:
-								n2 := calleeFull(&x.Call)
-								if len(x.Call.Args) > 0 && x.Call.Args[0] == probeErr && (strings.HasSuffix(n2, "filesystem.IsPathNotExist") || strings.HasSuffix(n2, "commonerrors.Any") || n2 == "os.IsNotExist" || n2 == "errors.Is") {
-									classified = true
-								}
-							case *ssa.Return:
-								k := len(x.Results) - 1
-								if k >= 0 {
-									for _, l := range sources(x.Results[k], deriveOpts{}) {
-										if l == probeErr || c11DependsOn(l, []ssa.Value{probeErr}, map[ssa.Value]bool{}, 0) {
-											reported = true
-										}
-									}
-								}
-							}
-						}
-					}
-				}
+				probeErr, classified, reported := absentByKind(region, args[0])
 				c.check(probeErr != nil && classified && reported, "N9", fname(f)+"/absent-by-error-kind", c.ipos(cl), "where Exists() answers false the path is examined (Lstat), its error classified, and reported unless it says 'absent'",
 					"the removal returns without an error as soon as Exists() answers false, which it also does for a path that cannot be examined (longer than PATH_MAX, unreadable parent): nothing is removed, the caller — a recursive removal one level up — finds the directory not empty and stops there, and Rm() reports success with the tree in place")
 			}
@@ -834,4 +800,126 @@ func (c *Ctx) c04Canonical(v ssa.Value, depth int) bool {
 		})
 	}
 	return sites > 0 && all
+}
+
+// absentByKind: in the region reached only when Exists(path) answered false, is the path examined (Lstat/Stat), the error of
+// that examination classified, and reported by some return?
+func absentByKind(region []*ssa.BasicBlock, path ssa.Value) (probeErr ssa.Value, classified, reported bool) {
+	for _, rb := range region {
+		for _, i2 := range rb.Instrs {
+			c2, ok := i2.(*ssa.Call)
+			if !ok {
+				continue
+			}
+			if n2, a2, ok := fsMethodCall(c2); ok && (n2 == "Lstat" || n2 == "Stat") && len(a2) > 0 && samePath(a2[0], path) {
+				if es := errResultsOf(c2); len(es) > 0 {
+					probeErr = es[0]
+				}
+			}
+		}
+	}
+	if probeErr == nil {
+		return
+	}
+	for _, rb := range region {
+		for _, i2 := range rb.Instrs {
+			switch x := i2.(type) {
+			case *ssa.Call:
+				n2 := calleeFull(&x.Call)
+				if len(x.Call.Args) > 0 && x.Call.Args[0] == probeErr && (strings.HasSuffix(n2, "filesystem.IsPathNotExist") || strings.HasSuffix(n2, "commonerrors.Any") || n2 == "os.IsNotExist" || n2 == "errors.Is") {
+					classified = true
+				}
+			case *ssa.Return:
+				k := len(x.Results) - 1
+				if k >= 0 {
+					for _, l := range sources(x.Results[k], deriveOpts{}) {
+						if l == probeErr || c11DependsOn(l, []ssa.Value{probeErr}, map[ssa.Value]bool{}, 0) {
+							reported = true
+						}
+					}
+				}
+			}
+		}
+	}
+	return
+}
+
+// c04AnswersForTheTree: the functions whose successful answer on the Exists()==false side says something about the tree
+// ("gone", "clean", "empty"); confirmed by reading, see DESIGN §5 F66, F77, F78.
+var c04AnswersForTheTree = map[string]bool{
+	"removeWithContextAndExclusionPatterns":   true,
+	"CleanDirWithContextAndExclusionPatterns": true,
+	"IsEmpty": true,
+}
+
+// c04AbsenceExempt: the other functions that return without an error on that side, one line of reason each.
+var c04AbsenceExempt = map[string]string{
+	"IsFile":            "a query: 'not known to be a file' is the answer for what cannot be examined",
+	"IsLink":            "a query: 'not known to be a link'",
+	"IsZipWithContext":  "a query: 'not known to be an archive'",
+	"MkDirAll":          "goes on to create the directory: the failure, if any, is reported by the creation",
+	"Touch":             "goes on to create the file: the failure, if any, is reported by the creation",
+	"FindAll":           "a search in a directory that cannot be examined finds nothing; nothing is claimed about the tree",
+	"garbageCollect":    "best-effort collection of old entries: nothing is promised about what is left",
+	"garbageCollectDir": "best-effort collection of old entries",
+	"Validate":          "a validation rule: the error of the examination is what it reports",
+}
+
+// c04AbsentOnlyWhenAbsent (N14): the functions of the filesystem layer which answer "nothing to do" / "empty" because
+// Exists() said false. Exists() is also false for a path that cannot be examined; a function which then reports success
+// (nothing to remove, nothing to clean, empty) has reported on a tree it never saw.
+const absentOnlyWhenAbsentText = "a function of the filesystem layer which returns without an error on the Exists()==false side, having been asked to remove, clean or measure emptiness, examines the path (Lstat), classifies the error and reports it unless it says 'absent'"
+
+func (c *Ctx) c04AbsentOnlyWhenAbsent(rule string, only func(*ssa.Function) bool) {
+	for _, f := range c.srcFuncs(fsPkgRel) {
+		if f.Parent() != nil || f.Blocks == nil || (only != nil && !only(f)) {
+			continue
+		}
+		allInstrs(f, func(in ssa.Instruction) {
+			cl, ok := in.(*ssa.Call)
+			if !ok {
+				return
+			}
+			name, args, ok := fsMethodCall(cl)
+			if !ok || name != "Exists" || len(args) == 0 {
+				return
+			}
+			for _, b := range f.Blocks {
+				ifi, ok := b.Instrs[len(b.Instrs)-1].(*ssa.If)
+				if !ok {
+					continue
+				}
+				v, ts := boolTest(ifi)
+				if v != ssa.Value(cl) {
+					continue
+				}
+				var r *ssa.Return
+				var region []*ssa.BasicBlock
+				for _, rb := range f.Blocks {
+					if !edgeDominates(b, 1-ts, rb) {
+						continue
+					}
+					region = append(region, rb)
+					if x, ok := rb.Instrs[len(rb.Instrs)-1].(*ssa.Return); ok && !isErrorExit(f, x) && r == nil {
+						r = x
+					}
+				}
+				if r == nil {
+					continue
+				}
+				key := fname(f) + "/absent-by-error-kind"
+				if why, ok := c04AbsenceExempt[f.Name()]; ok {
+					c.info(rule, key, c.ipos(cl), "not held to the rule: "+why)
+					continue
+				}
+				if !c04AnswersForTheTree[f.Name()] {
+					c.info(rule, key, c.ipos(cl), "returns without an error where Exists() answers false; not one of the functions whose answer describes the tree (remove, clean, is-empty)")
+					continue
+				}
+				probeErr, classified, reported := absentByKind(region, args[0])
+				c.check(probeErr != nil && classified && reported, rule, key, c.ipos(cl), "where Exists() answers false the path is examined (Lstat), its error classified, and reported unless it says 'absent'",
+					"the function answers 'nothing there' as soon as Exists() answers false, which it also does for a path that cannot be examined (longer than PATH_MAX, a failing Stat): the content stays in place and the caller is told that it is gone / clean / empty")
+			}
+		})
+	}
 }
